@@ -69,6 +69,7 @@ def pairing(ctx: Ctx, cls, meth, attrs, label):
 def run(ctx: Ctx):
     normalised_sites(ctx)
     act_evaluate_agree(ctx)
+    entropy_as_recorded(ctx)
     ds = ctx.repo.get_class(DEC, "DecodingStrategy")
     bs = ctx.repo.get_class(DEC, "BeamSearch")
     it = pairing(ctx, ds, "step", ("actions", "logprobs"), "DecodingStrategy.step")
@@ -380,6 +381,59 @@ def act_evaluate_agree(ctx: Ctx):
     same = opts["act"] == opts["evaluate"]
     ctx.ob("C11.g", "L2DPolicy4PPO:act-and-evaluate-same-distribution", same, cls.methods["act"].loc,
            f"process_logits options: act {opts['act']} / evaluate {opts['evaluate']}", construct="L2DPolicy4PPO:act-evaluate-options")
+
+
+def entropy_as_recorded(ctx: Ctx):
+    """C11.h the entropy returned next to the log-likelihood is -sum p log p of the step rows AS RECORDED: the all-zero row that
+    stands for a forced first move (multi-start, beam search) then contributes exp(0) * 0 = 0.  A helper that re-normalises the
+    rows (Categorical(logits=...), softmax, log_softmax) turns that row into a uniform distribution and adds log(num_actions)."""
+    fi = ctx.repo.get_function("rl4co/utils/ops.py", "calculate_entropy")
+    ctx.fn(fi)
+    it = vg.Interp(ctx.repo, None, inline_policy=lambda f, a: False)
+    fr = it.run_function(fi)
+    ret = fr.ret
+    if not isinstance(ret, vg.S):
+        raise AnalysisError("calculate_entropy: no return value")
+    renorm = [n for n in vg.walk(ret) if (nf._fn(n) or "").split(".")[-1] in ("Categorical", "softmax", "log_softmax", "logsumexp", "OneHotCategorical")
+              or (n.op == "meth" and n.args[1] in ("softmax", "log_softmax", "logsumexp", "entropy"))]
+    # -(exp(L) * L) summed over the action axis
+    form = False
+    for n in vg.walk(ret):
+        if n.op == "meth" and n.args[1] == "sum" and nf.axis_is(n, -1):
+            try:
+                p = nf.poly(n.args[0])
+            except Exception:
+                continue
+            if len(p.terms) == 1:
+                (mono, coef), = p.terms.items()
+                atoms = [nf.Poly.ATOMS[a] for a, _ in mono]
+                exps = [a for a in atoms if (a.op == "meth" and a.args[1] == "exp") or nf._fn(a) == "torch.exp"]
+                if coef in (1, -1) and len(atoms) == 2 and len(exps) == 1:
+                    base = exps[0].args[0] if exps[0].op == "meth" else exps[0].args[1]
+                    other = [a for a in atoms if a is not exps[0]][0]
+                    same = nf.norm(base) is nf.norm(other) or nf.strip(base) is nf.strip(other)
+                    # overall sign: the coefficient inside the sum times the coefficient the sum enters the result with
+                    outer = None
+                    for m in vg.walk(ret):
+                        if m.op == "meth" and m.args[1] == "sum" and m is not n:
+                            try:
+                                q = nf.poly(m.args[0])
+                            except Exception:
+                                continue
+                            for mono2, c2 in q.terms.items():
+                                if len(mono2) == 1 and nf.Poly.ATOMS[mono2[0][0]] is nf.norm(n):
+                                    outer = c2
+                    if outer is None:
+                        q = nf.poly(ret)
+                        for mono2, c2 in q.terms.items():
+                            if len(mono2) == 1 and nf.Poly.ATOMS[mono2[0][0]] is nf.norm(n):
+                                outer = c2
+                    form = same and outer is not None and coef * outer == -1
+    ok = form and not renorm
+    ctx.ob("C11.h", "calculate_entropy:rows-as-recorded", ok, fi.loc,
+           f"entropy = sum over actions of -(exp(L) * L) on the recorded rows: {form}; re-normalising call in the computation: {[vg.show(x, 2)[:50] for x in renorm][:2]}" +
+           ("" if ok else " -- a forced first move (all-zero row) no longer contributes zero"),
+           construct="calculate_entropy:rows-as-recorded")
 
 
 def run_thorough(ctx: Ctx):
